@@ -168,6 +168,25 @@ def build_pool(seed):
         grp.append({"op": "de", "method": m, "account": "123"})
         grp.append({"op": "de", "method": m, "account": accts[0], "how": "compute"})
         groups.append(grp)
+    # the same account number under every method (shuffled): one method's work on these digits is no other method's business
+    from ..oracles import de as ode_
+    for gi in range(12):
+        # an account that some method accepts (so that a borrowed intermediate result shows as a changed verdict)
+        acct = f"{rng.randrange(10 ** rng.choice((10, 10, 8))):010d}"
+        mb = rng.choice(st["impl"])
+        for dgt in "0123456789":
+            cand = acct[:9] + dgt
+            if mb in ode_.METHODS and ode_.ref(mb, cand) is True:
+                acct = cand
+                break
+        order = list(st["impl"])
+        rng.shuffle(order)
+        grp = []
+        for m in order:
+            grp.append({"op": "de", "method": m, "account": acct})
+            if st["by_method"].get(m) and rng.random() < 0.3:
+                grp.append({"op": "iban", "text": de_iban(rng.choice(st["by_method"][m]), acct), "validate_bban": True})
+        groups.append(grp)
     from .c14 import NATIONAL, national_calls
     for cc in NATIONAL:
         grp = national_calls(rng, cc) + national_calls(rng, cc)
